@@ -34,6 +34,9 @@ fn main() {
     mc_core::run::tune_malloc();
     let cli = Cli::parse();
     mc_core::run::install_panic_hook();
+    if std::env::var_os("VERIF_ASAN").is_none() {
+        mc_core::alloc::set_default_poison(0xA5);
+    }
     let rep = Report::new(&cli.check);
     let t0 = Instant::now();
     match cli.check.as_str() {
